@@ -71,7 +71,7 @@ func initAllowed(path string) bool {
 	switch path {
 	case "unicode/utf8", "unicode", "strings", "bytes", "strconv", "sort", "slices", "maps",
 		"errors", "io", "io/fs", "internal/oserror", "path", "bufio", "go/token",
-		"unicode/utf16", "math/bits", "internal/stringslite", "internal/bytealg", "cmp", "iter", "text/scanner":
+		"go/types", "go/ast", "go/constant", "go/scanner", "unicode/utf16", "math/bits", "internal/stringslite", "internal/bytealg", "cmp", "iter", "text/scanner", "context":
 		return true
 	}
 	return false
@@ -172,6 +172,7 @@ func Open(cfg Config, pkgPaths []string) (*Session, error) {
 					ierrs = append(ierrs, err.Error())
 				}
 			}
+			ip.InitUsed, ip.Used = ip.Used, map[string]string{}
 			mu.Lock()
 			s.workers[i] = ip
 			if i == 0 {
